@@ -1065,7 +1065,47 @@ def _regex_rowreader(pat: str, where: str) -> tuple[str, int, int, int | None]:
     return prefix, len(prefix), lo, hi
 
 
-def row_reader(funcs: dict[str, ast.FunctionDef], tree: ast.Module) -> tuple[str, int, int, int | None, str]:
+def _table_row_reader(loop: ast.For, nm: str, tree: ast.Module) -> tuple[str, int, int, int | None, str, int | None] | None:
+    """Form 3 (round 5): the row index is looked up in a precomputed module-level table,  y = TABLE[name]  (unknown keys raise
+    KeyError and are skipped) or  y = TABLE.get(name).  The table is read from the imported module (whatever way it is built):
+    it must map  prefix + str(y)  to y for exactly the y below some bound B; the reader then knows the rows 0..B-1."""
+    cand: list[str] = []
+    for n in ast.walk(loop):
+        if isinstance(n, ast.Assign) and ast.unparse(n.targets[0]) == 'y':
+            v = n.value
+            if isinstance(v, ast.Subscript) and isinstance(v.value, ast.Name) and ast.unparse(v.slice) == nm:
+                cand.append(v.value.id)
+            elif isinstance(v, ast.Call) and isinstance(v.func, ast.Attribute) and v.func.attr == 'get' and isinstance(v.func.value, ast.Name) \
+                    and v.args and ast.unparse(v.args[0]) == nm:
+                cand.append(v.func.value.id)
+    if not cand:
+        return None
+    if len(cand) != 1:
+        raise TranslateError(f'Side._iter_disp_row: row index looked up in more than one table: {cand}')
+    if not any(isinstance(n, (ast.Continue, ast.Raise)) for n in ast.walk(loop)):
+        raise TranslateError('Side._iter_disp_row: table form: unknown keys must be skipped or refused')
+    if not any((isinstance(n, ast.Assign) and any(ast.unparse(t) == cand[0] for t in n.targets)) or
+               (isinstance(n, ast.AnnAssign) and ast.unparse(n.target) == cand[0]) for n in tree.body):
+        raise TranslateError(f'Side._iter_disp_row: table {cand[0]} is not a module-level name')
+    try:
+        import importlib
+        mod = importlib.import_module('srctools.vmf')
+        tbl = dict(getattr(mod, cand[0]))
+    except Exception as e:       # noqa: BLE001
+        raise TranslateError(f'Side._iter_disp_row: table {cand[0]} cannot be read from the imported module: {e!r}')
+    if not tbl or not all(isinstance(k, str) and isinstance(v, int) and not isinstance(v, bool) for k, v in tbl.items()):
+        raise TranslateError(f'Side._iter_disp_row: table {cand[0]} is not a non-empty str -> int mapping')
+    some_key, some_val = next(iter(tbl.items()))
+    if not some_key.endswith(str(some_val)):
+        raise TranslateError(f'Side._iter_disp_row: table {cand[0]}: key {some_key!r} does not end in its index {some_val}')
+    prefix = some_key[:len(some_key) - len(str(some_val))]
+    bound = len(tbl)
+    if sorted(tbl.values()) != list(range(bound)) or any(k != prefix + str(v) for k, v in tbl.items()):
+        raise TranslateError(f'Side._iter_disp_row: table {cand[0]} is not {{prefix + str(y): y for y in range(B)}}')
+    return prefix, len(prefix), 1, None, 'table', bound
+
+
+def row_reader(funcs: dict[str, ast.FunctionDef], tree: ast.Module) -> tuple[str, int, int, int | None, str, int | None]:
     """How Side._iter_disp_row recognises a row key and computes the row index."""
     fn = funcs.get('Side._iter_disp_row')
     if fn is None:
@@ -1076,6 +1116,9 @@ def row_reader(funcs: dict[str, ast.FunctionDef], tree: ast.Module) -> tuple[str
     var = loops[0].target.id
     nm = f'{var}.name'
     body = loops[0].body
+    tbl = _table_row_reader(loops[0], nm, tree)
+    if tbl is not None:
+        return tbl
     y_assign = [n for n in ast.walk(loops[0]) if isinstance(n, ast.Assign) and ast.unparse(n.targets[0]) == 'y']
     if len(y_assign) != 1:
         raise TranslateError('Side._iter_disp_row: a single assignment of the row index y is expected')
@@ -1093,7 +1136,7 @@ def row_reader(funcs: dict[str, ast.FunctionDef], tree: ast.Module) -> tuple[str
         m = re.fullmatch(re.escape(nm) + r'\[(\d+):\]', ast.unparse(arg))
         if not m:
             raise TranslateError(f'Side._iter_disp_row: index expression {ast.unparse(arg)}')
-        return prefix, int(m.group(1)), 1, None, 'startswith'
+        return prefix, int(m.group(1)), 1, None, 'startswith', None
     # form 2: match = <re>.fullmatch(name) / re.fullmatch(pat, name); if match is None: continue; y = int(match.group(1))
     if isinstance(first, ast.Assign) and isinstance(first.value, ast.Call) and len(first.targets) == 1 and isinstance(first.targets[0], ast.Name):
         mv = first.targets[0].id
@@ -1118,7 +1161,7 @@ def row_reader(funcs: dict[str, ast.FunctionDef], tree: ast.Module) -> tuple[str
         if ast.unparse(arg) != f'{mv}.group(1)':
             raise TranslateError(f'Side._iter_disp_row: index expression {ast.unparse(arg)}')
         p, k, lo, hi = _regex_rowreader(pat, 'Side._iter_disp_row')
-        return p, k, lo, hi, 'regex'
+        return p, k, lo, hi, 'regex', None
     raise TranslateError('Side._iter_disp_row: the way row keys are recognised is not one of the known forms')
 
 
